@@ -48,21 +48,21 @@ CHECKS["C17"] = {
 CHECKS["C13"] = {
     "engine": "sched",
     "harness": "c13",
-    "packages": ["cardinality"],
+    "packages": ["cardinality", "graph"],
     "fnentry_pkgs": ["github.com/RoaringBitmap/roaring/v2", "github.com/RoaringBitmap/roaring/v2/roaring64"],
     "race_probe": {"harness": "c13race", "budget": {"quick": 5, "thorough": 60}},
     "level": "exploration",
     "budget": {"quick": 25, "thorough": 600},
-    "rule": "one evaluation = one seeded simulated run over the instrumented cardinality package: width 32 or 64, 3-7 providers (bitmap / threadSafe(bitmap), owned or shared, seeded from dense, sparse, 2^16-, 2^32- and max-adjacent values), 1-3 clients x 3-15 ops (add/remove/contains/checkedadd/cardinality/slice/each/clear/clone+edit/or/and/andnot/xor with every receiver x operand pairing). W1 checks answers against a map model with porcupine (partition per receiver), plus an audit of every provider at quiescence; One workload in fifty is a large concurrent one (a small shared receiver combined with a frozen wrapper of 5000-70000 values while a second caller edits the receiver; one Add of 5000-140000 values while another caller observes or clears the same set; interleaving at the wrapper locks). W2 makes wrappers receivers and operands of each other concurrently and checks termination and that no element appears that nobody added. "
+    "rule": "one evaluation = one seeded simulated run over the instrumented cardinality package: width 32 or 64, 3-7 providers (bitmap / threadSafe(bitmap), owned or shared, seeded from dense, sparse, 2^16-, 2^32- and max-adjacent values), 1-3 clients x 3-15 ops (add/remove/contains/checkedadd/cardinality/slice/each/clear/clone+edit/or/and/andnot/xor with every receiver x operand pairing). W1 checks answers against a map model with porcupine (partition per receiver), plus an audit of every provider at quiescence; One workload in fifty is a large concurrent one (a small shared receiver combined with a frozen wrapper of 5000-70000 values while a second caller edits the receiver; one Add of 5000-140000 values while another caller observes or clears the same set; interleaving at the wrapper locks). One workload in twelve drives graph.ThreadSafeKindBitmap (graph/types.go: thread-safe map kind -> 64-bit set; Add, CheckedAdd, Contains, Or, Cardinality, Get, Clone by 1-3 concurrent callers) against a map model with porcupine. Single-caller histories also ask the lazy union/intersection helpers of cardinality/commutative.go and the plain bitmaps' iterators. W2 makes wrappers receivers and operands of each other concurrently and checks termination and that no element appears that nobody added. "
             "Non-trivial = a contended scheduler decision switched tasks; distinct = distinct (workload, decision sequence) hashes, union over workers (cap 2M per worker: lower bound).",
-    "real": ["cardinality.bitmap32", "cardinality.bitmap64", "cardinality.threadSafeDuplex (instrumented: Mutex -> simsync)", "RoaringBitmap roaring + roaring64 (real code; a patched copy of the module with a scheduling point at every function entry, seeded 0.2-10% subset active per run, so callers that a broken wrapper lets into one bitmap interleave inside it)"],
+    "real": ["graph.ThreadSafeKindBitmap / KindBitmaps", "cardinality commutative helpers", "cardinality.bitmap32", "cardinality.bitmap64", "cardinality.threadSafeDuplex (instrumented: Mutex -> simsync)", "RoaringBitmap roaring + roaring64 (real code; a patched copy of the module with a scheduling point at every function entry, seeded 0.2-10% subset active per run, so callers that a broken wrapper lets into one bitmap interleave inside it)"],
     "stubs": [],
     "assumptions": SCHED_ASSUME + [
         "W1: an operand is not mutated by another client while it is an operand (frozen shared wrapper, or owned by the caller), so 'the corresponding set' is well defined; un-wrapped providers are only touched by their owner",
         "self-operands (a.Or(a)) are excluded: the statement says 'any other duplex provider'",
         "Slice/Each order is not asserted, only the set",
     ],
-    "expected_probes": ["w2_runs", "large_set_runs", "sequential_histories", "large_concurrent_runs"],
+    "expected_probes": ["w2_runs", "large_set_runs", "sequential_histories", "large_concurrent_runs", "kind_bitmap_runs", "commutative_helper_checks"],
 }
 
 CHECKS["C15"] = {
